@@ -3,6 +3,7 @@ package main
 import (
 	"fmt"
 	"go/ast"
+	"go/constant"
 	"go/parser"
 	"go/token"
 	"go/types"
@@ -287,6 +288,9 @@ func (t *FnTrans) call(x *ssa.Call, c *ssa.CallCommon, st *HeapState, reach stri
 	if t.W.isPureFrame(callee) {
 		t.pureCalls[name]++
 		r := t.havocVal(x.Type(), "ret."+callee.Name())
+		if name == "fmt.Sprintf" && r.K == VScalar {
+			t.sprintfConfinement(x, c, args, r, st, reach)
+		}
 		if nonNilResult[name] && r.K == VScalar {
 			t.declare("iface.nil", "Iface")
 			t.assume("true", not(eq(r.S, "iface.nil")), name+" returns a non-nil error")
@@ -1147,4 +1151,43 @@ func (t *FnTrans) siteMatchesInstr(s *SiteSpec, in ssa.Instruction) bool {
 		return false
 	}
 	return t.siteOrdinal(s, kind, in) == s.Ordinal
+}
+
+// sprintfConfinement: the C19 sanitiser discipline for paths built with
+// fmt.Sprintf.  When the format is a literal without ".." and every argument
+// is a string that is a trusted directory or a safe name, the result is a
+// confined path.  (String-level rule decided on the literal text; the
+// predicates are the uninterpreted ones of the lookups/dashboards contracts.)
+func (t *FnTrans) sprintfConfinement(x *ssa.Call, c *ssa.CallCommon, args []Val, res Val, st *HeapState, reach string) {
+	if len(c.Args) != 2 {
+		return
+	}
+	fc, ok := c.Args[0].(*ssa.Const)
+	if !ok || fc.Value == nil || fc.Value.Kind() != constant.String {
+		return
+	}
+	format := constant.StringVal(fc.Value)
+	if strings.Contains(format, "..") {
+		return
+	}
+	sl := args[1]
+	n, isConst := constLen(t, sl)
+	if sl.K != VSlice || !isConst || n > 8 {
+		return
+	}
+	t.declare("iface.nil", "Iface")
+	tyOf := t.declareFun("iface.type", []string{"Iface"}, "Int")
+	un := t.declareFun("unbox."+typeKey(types.Typ[types.String]), []string{"Iface"}, "Str")
+	safe := t.declareFun("uf.safeName.Str", []string{"Str"}, "Bool")
+	trusted := t.declareFun("uf.trustedDir.Str", []string{"Str"}, "Bool")
+	confined := t.declareFun("uf.confined.Str", []string{"Str"}, "Bool")
+	srt := arraySort("Int", arraySort(t.mode.idxSort(), "Iface"))
+	arr := t.heapGet(st, "B.Iface", srt)
+	var conds []string
+	for k := 0; k < n; k++ {
+		e := sx("select", sx("select", arr, sl.Sub[0].S), t.addIdx(sl.Sub[1].S, t.mode.intLit64(int64(k), 64)))
+		str := sx(un, e)
+		conds = append(conds, and(eq(sx(tyOf, e), t.typeTag(types.Typ[types.String])), or(sx(safe, str), sx(trusted, str))))
+	}
+	t.assume(reach, implies(and(conds...), sx(confined, res.S)), fmt.Sprintf("fmt.Sprintf(%q, trusted directories / safe names...) is a confined path (format literal has no dot-dot)", format))
 }
